@@ -42,7 +42,7 @@ PROPS["C02"] = dict(
     assumptions=COMMON_ASSUME,
     technique="property-based testing (rapid) + bounded-exhaustive two-level sweep against a Go-slice view model with bidirectional sharing probes",
     level_text=("Generated-input search over nested Slice chains, valid and invalid, against an (offset,len,cap) model; exhaustive for "
-                "C<=3, K<=3 (5 thorough) over all first- and second-level ranges in [-2,K+2]^2 for all 13 types; extreme arguments sampled. Three named element types; channel counts around 256 and 65536 are swept."),
+                "C<=3, K<=3 (5 thorough) over all first- and second-level ranges in [-2,K+2]^2 for all 13 types; extreme arguments sampled. Three named element types; channel counts around 256 and 65536 are swept. Roots of 2^24+9 .. 2^25+1 samples: window shapes and the sharing of first and last samples (huge cases)."),
     level_note="Trusts Alloc and Sample/SetSample to build and observe fixtures; panics are observed with recover().",
 )
 PROPS["C03"] = dict(
@@ -60,7 +60,7 @@ PROPS["C03"] = dict(
     assumptions=COMMON_ASSUME,
     technique="property-based testing (rapid) + bounded-exhaustive sweep against a plain-slice storage model with aliasing views and independence stamps",
     level_text=("Generated-input search over destination/source shape combinations and repeated appends against a storage-graph model; "
-                "exhaustive for C<=3, roots <=3 (4) frames, all admissible sources and a second append, for 6 types; larger shapes sampled. Three named element types; channel counts around 256 are swept."),
+                "exhaustive for C<=3, roots <=3 (4) frames, all admissible sources and a second append, for 6 types; larger shapes sampled. Three named element types; channel counts around 256 are swept. Sources also hold subnormals, infinities and fractions (floating types)."),
     level_note="Capacity after growth is read from the implementation and only constrained (>= Len, multiple of channels), as the property states; trusts Alloc/Slice/Sample to build and observe fixtures.",
 )
 PROPS["C04"] = dict(
@@ -76,7 +76,7 @@ PROPS["C04"] = dict(
     assumptions=COMMON_ASSUME,
     technique="property-based testing (rapid) + bounded-exhaustive sweep against a sequence model with whole-storage frame condition",
     level_text=("Generated call sequences against a sequence model; exhaustive for all 13 types, C<=4, roots <=3 (5) frames, all windows, every call "
-                "count 0..spare+C+1 and far beyond capacity; larger shapes sampled. Buffers produced by a growing Append are tested themselves and through windows of them (capacity of the window not a whole number of frames). Three named element types; channel counts 255..257 and 65535..65537 are swept, 255..513 drawn rarely."),
+                "count 0..spare+C+1 and far beyond capacity; larger shapes sampled. Buffers produced by a growing Append are tested themselves and through windows of them (capacity of the window not a whole number of frames). Three named element types; channel counts 255..257 and 65535..65537 are swept, 255..513 drawn rarely. Appended values include -0, subnormals, +Inf, -MaxFloat and a fraction for the floating types."),
     level_note="Trusts Alloc/Slice/Sample to build and observe fixtures.",
 )
 
@@ -94,7 +94,7 @@ PROPS["C05"] = dict(
     assumptions=COMMON_ASSUME,
     technique="property-based testing (rapid) + bounded-exhaustive shape sweep: whole-storage frame condition plus metamorphic single-sample re-conversion; direct oracle for float-to-float",
     level_text=("Generated-input search over all 169 instantiations; exhaustive over all window pairs of roots <=2 (3) frames, C<=3, per instantiation; "
-                "values and larger shapes sampled. The numeric correctness of the point function is C06-C09's. Operand content may be appended in two pieces (single samples, then an in-place Append), both ending in partial frames. 34 instantiations with named element types are part of the table."),
+                "values and larger shapes sampled. The numeric correctness of the point function is C06-C09's. Operand content may be appended in two pieces (single samples, then an in-place Append), both ending in partial frames. 34 instantiations with named element types are part of the table. The whole root header itself, filled only through an alias, may be the operand (fix 3)."),
     level_note="The position-wise law compares two contexts of the same conversion; trusts Alloc/Slice/AppendSample/Sample to build fixtures.",
 )
 PROPS["C13"] = dict(
@@ -136,7 +136,7 @@ PROPS["C15"] = dict(
           "Oracle: the call panics; afterwards both operands' whole root storage, headers and the caller's slices are unchanged; for Put the "
           "rejected buffer is intact (not cleared) and the next three Gets return allocator-shaped zeroed buffers. Every case is a mismatch "
           "by construction; distinct = distinct (entry point, types, shapes)."
-          " Operands may end in partial frames; the caller's outer slice may have further per-channel slices behind its length. Operands may hold fewer samples than one frame (1..C-1 single samples in an empty window). Put of a buffer grown to a partial last frame into a pool of the whole frames below its length; whether a case is a mismatch is decided from the storage's capacity, not from Cap()."),
+          " Operands may end in partial frames; the caller's outer slice may have further per-channel slices behind its length. Operands may hold fewer samples than one frame (1..C-1 single samples in an empty window). Put of a buffer grown to a partial last frame into a pool of the whole frames below its length; whether a case is a mismatch is decided from the storage's capacity, not from Cap(). A burst of up to 100 legitimate get/put pairs may precede the mismatching Put."),
     quick=dict(rapid=dict(checks=40000, shards=8)),
     thorough=dict(rapid=dict(checks=150000, shards=16), fuzz=dict(targets=["FuzzC15"], seconds=20)),
     assumptions=COMMON_ASSUME,
@@ -182,7 +182,7 @@ PROPS["C06"] = dict(
     assumptions=NUM_ASSUME,
     technique="exhaustive enumeration of all 8/16/32-bit source codes in amplitude order + property-based testing (rapid) on 64-bit sources; order and reference-level oracle in exact integer arithmetic",
     level_text=("Complete enumeration of every 8- and 16-bit source code (quick) and every 32-bit source code (thorough) for all destinations decides order "
-                "preservation exactly on those sub-domains; 64-bit sources are sampled densely at boundaries and at random (order is checked on sorted samples). Long and wide at once: 12 channels x 40000 and 64 channels x 70001 samples per pair in the sweep; rapid couples very long buffers with 1..64 channels. Operands may also have grown out of an empty window (Slice(fr,fr) then Append). Named element types (34 further instantiations); a source that was the output of a conversion and is converted through a window cut then (fix 5). Operands of unequal length (source or destination two frames longer)."),
+                "preservation exactly on those sub-domains; 64-bit sources are sampled densely at boundaries and at random (order is checked on sorted samples). Long and wide at once: 12 channels x 40000 and 64 channels x 70001 samples per pair in the sweep; rapid couples very long buffers with 1..64 channels. Operands may also have grown out of an empty window (Slice(fr,fr) then Append). Named element types (34 further instantiations); a source that was the output of a conversion and is converted through a window cut then (fix 5). Operands of unequal length (source or destination two frames longer). One destination buffer per destination type may be shared by all instantiations (fix 8)."),
     level_note="Order preservation between two arbitrary 64-bit inputs is only sampled; adjacent-code monotonicity on the swept domains implies it there.",
 )
 
@@ -197,7 +197,7 @@ PROPS["C07"] = dict(
     assumptions=NUM_ASSUME,
     technique="exhaustive enumeration of all 8/16/32-bit source codes + property-based testing (rapid) on 64-bit sources; floor/ceil accuracy oracle and widen-then-narrow round trip in exact integer arithmetic",
     level_text=("Complete enumeration of every 8/16-bit (quick) and 32-bit (thorough) source code for all 11 destinations, including every widen-and-back "
-                "composition; 64-bit sources sampled at boundaries and at random. Long and wide at once: 12 channels x 40000 and 64 channels x 70001 samples per pair in the sweep; rapid couples very long buffers with 1..64 channels. Operands may also have grown out of an empty window (Slice(fr,fr) then Append). Named element types (34 further instantiations); a source that was the output of a conversion and is converted through a window cut then (fix 5). Operands of unequal length (source or destination two frames longer)."),
+                "composition; 64-bit sources sampled at boundaries and at random. Long and wide at once: 12 channels x 40000 and 64 channels x 70001 samples per pair in the sweep; rapid couples very long buffers with 1..64 channels. Operands may also have grown out of an empty window (Slice(fr,fr) then Append). Named element types (34 further instantiations); a source that was the output of a conversion and is converted through a window cut then (fix 5). Operands of unequal length (source or destination two frames longer). One destination buffer per destination type may be shared by all instantiations (fix 8)."),
     level_note="Round trips return to every element type with the source's signedness and depth (int/int64, uint/uint64/uintptr).",
 )
 
@@ -216,7 +216,7 @@ PROPS["C08"] = dict(
     assumptions=NUM_ASSUME + ["NaN inputs are excluded (result unspecified by the property)", "the verdict is for linux/amd64, where the library relies on the platform's float-to-integer conversion for in-range negative inputs to unsigned types"],
     technique="exhaustive enumeration of all float32 bit patterns (thorough) + boundary-dense sweep + property-based testing (rapid) and native fuzzing; clip/linearity/monotonicity oracle decided with exact 128-bit arithmetic",
     level_text=("Every non-NaN float32 input for all 11 float32-source instantiations is enumerated in numeric order (thorough), which decides clipping, accuracy and "
-                "monotonicity exactly there; float64 inputs are sampled densely at the boundaries the property names and at random. Long and wide at once: 12 channels x 40000 and 64 channels x 70001 samples per instantiation in the sweep; rapid couples very long buffers with 1..64 channels. Operands may also have grown out of an empty window (Slice(fr,fr) then Append). Named element types (34 further instantiations); a source that was the output of a conversion and is converted through a window cut then (fix 5). Operands of unequal length (source or destination two frames longer)."),
+                "monotonicity exactly there; float64 inputs are sampled densely at the boundaries the property names and at random. Long and wide at once: 12 channels x 40000 and 64 channels x 70001 samples per instantiation in the sweep; rapid couples very long buffers with 1..64 channels. Operands may also have grown out of an empty window (Slice(fr,fr) then Append). Named element types (34 further instantiations); a source that was the output of a conversion and is converted through a window cut then (fix 5). Operands of unequal length (source or destination two frames longer). One destination buffer per destination type may be shared by all instantiations (fix 8)."),
     level_note="The one-step tolerance is the property's own; the oracle has no floating tolerance of its own (exact integer comparison).",
 )
 
@@ -234,7 +234,7 @@ PROPS["C09"] = dict(
     assumptions=NUM_ASSUME,
     technique="exhaustive enumeration of all 8/16/32-bit source codes + property-based testing (rapid) on 64-bit sources; range/level/order/accuracy oracle and round trip through the inverse conversion",
     level_text=("Complete enumeration of every 8/16-bit (quick) and 32-bit (thorough) code into both float types, with injectivity and round trips; 64-bit sources "
-                "sampled. One known finding (F9, UnsignedAsFloat) is reported as KNOWN-FINDING and excluded by a structural predicate. Long and wide at once: 12 channels x 40000 and 64 channels x 70001 samples per pair in the sweep; rapid couples very long buffers with 1..64 channels. Operands may also have grown out of an empty window (Slice(fr,fr) then Append). Named element types (34 further instantiations); a source that was the output of a conversion and is converted through a window cut then (fix 5). Operands of unequal length (source or destination two frames longer)."),
+                "sampled. One known finding (F9, UnsignedAsFloat) is reported as KNOWN-FINDING and excluded by a structural predicate. Long and wide at once: 12 channels x 40000 and 64 channels x 70001 samples per pair in the sweep; rapid couples very long buffers with 1..64 channels. Operands may also have grown out of an empty window (Slice(fr,fr) then Append). Named element types (34 further instantiations); a source that was the output of a conversion and is converted through a window cut then (fix 5). Operands of unequal length (source or destination two frames longer). One destination buffer per destination type may be shared by all instantiations (fix 8); the same values are converted again in three other arrangements and compared bit for bit."),
     level_note="'plus float rounding' is taken as 4 ulp of 1 in the destination float type.",
 )
 PROPS["C16"] = dict(
@@ -301,7 +301,7 @@ PROPS["C12"] = dict(
                                  "an in-place Append may trim a non-frame-aligned capacity to the frame multiple (library alignment); both outcomes are accepted"],
     technique="model-based testing: bounded-exhaustive DFS over operation histories + rapid-generated long histories + native fuzzing, all compared step by step with a plain-Go-slice reference model",
     level_text=("Every history up to depth 3/4 over the small alphabet is enumerated (transition count in the evidence); long random histories over larger shapes are "
-                "sampled; all views are compared with the model after every step, so visibility through exactly the covering views follows."),
+                "sampled; all views are compared with the model after every step, so visibility through exactly the covering views follows. Append sources may overlap the region written (the model appends the source as it was before the call)."),
     level_note="Trusts the harness model of Go slices; the exact transition count of the DFS is recorded in coverage.notes.dfs_transitions.",
 )
 PROPS["C18"] = dict(
@@ -317,7 +317,7 @@ PROPS["C18"] = dict(
     assumptions=COMMON_ASSUME + ["escape analysis and inlining are compiler decisions: the verdict is for go1.23.5 and the generated instantiations/shapes",
                                  "non-race build, one process per shard (AllocsPerRun pins GOMAXPROCS to 1 and reads process-wide malloc counters)"],
     technique="property-based testing (rapid) + exhaustive operation x type sweep with testing.AllocsPerRun as the oracle",
-    level_text=("Every operation x every element type (all 169 conversions) is measured at several shapes in both tiers; rapid samples further shapes and type pairs. Append within capacity also with source and destination being windows of one parent, and of a buffer onto itself."),
+    level_text=("Every operation x every element type (all 169 conversions) is measured at several shapes in both tiers; rapid samples further shapes and type pairs. Append within capacity also with source and destination being windows of one parent, and of a buffer onto itself. Interleaved get/put cycles of two pools of the same shape for every pair of element types."),
     level_note="AllocsPerRun truncates the per-run average, so a one-off allocation by the runtime (e.g. a pool refill after GC) does not count while any per-call allocation does.",
 )
 PROPS["C11"] = dict(
@@ -336,7 +336,7 @@ PROPS["C11"] = dict(
     technique="randomised concurrent stress under the Go race detector with rapid-generated configurations (goroutines, GOMAXPROCS, yield points, GC); freshness and ownership-stamp oracle",
     level_text=("Schedule sampling, not enumeration: rapid generates the concurrency configuration, the Go scheduler picks the interleaving. Decisive for the realistic defect classes "
                 "(unsynchronised shared state in the pool, shared buffers handed out twice) through the race detector and ownership stamps; a defect needing one specific "
-                "preemption point is out of reach (DESIGN.md section 6). Goroutines hold 1..4 buffers at the same time (released in get order or newest first); hammer cases run thousands of cycles on tiny buffers, a third of them with a shared ownership table; a third of the cases put back a Slice(0,k) view instead of the buffer; in half of the cases by-value goroutines copy the allocator while others already use it; the bookkeeping keeps no pointer to a buffer that went back."),
+                "preemption point is out of reach (DESIGN.md section 6). Goroutines hold 1..4 buffers at the same time (released in get order or newest first); hammer cases run thousands of cycles on tiny buffers, a third of them with a shared ownership table; a third of the cases put back a Slice(0,k) view instead of the buffer; in half of the cases by-value goroutines copy the allocator while others already use it; the bookkeeping keeps no pointer to a buffer that went back; a quarter of the stamps of floating types are -0."),
     level_note="Race reports are turned into violations with the process log as the replay artefact; so is an abort of the race build's pointer checker (checkptr) whose innermost non-runtime frame is in pipelined.dev/signal.",
 )
 FIRSTUSE = [dict(name="firstuse-" + t, run="TestFirstUse", env={"VERIF_FIRST_TYPE": t})
@@ -358,7 +358,7 @@ PROPS["C19"] = dict(
                                  "the race detector reports unordered conflicting accesses that actually executed"],
     technique="randomised concurrent stress under the Go race detector with rapid-generated reader/writer scripts; differential oracle against the sequential execution of the same scripts",
     level_text=("Schedule sampling, not enumeration. Hidden shared mutable state in a read path or a write outside a slice's window is an unordered conflicting access, which the race "
-                "detector reports whenever both accesses execute, whatever the interleaving; results are also compared with a sequential run. A fifth of the cases use 5..17 (rarely 60..70) channels; the sweep includes 9 and 16. Writer windows may reach into the spare capacity, with a boundary right behind a partial last frame; reader results are rendered without package fmt (its pooled printers would order the goroutines); writers offer inputs longer than their window, also to an empty window."),
+                "detector reports whenever both accesses execute, whatever the interleaving; results are also compared with a sequential run. A fifth of the cases use 5..17 (rarely 60..70) channels; the sweep includes 9 and 16. Writer windows may reach into the spare capacity, with a boundary right behind a partial last frame; reader results are rendered without package fmt (its pooled printers would order the goroutines); writers offer inputs longer than their window, also to an empty window; a third of the cases take the shared buffer from a pool allocator."),
     level_note="Race reports are turned into violations with the process log as the replay artefact; so is an abort of the race build's pointer checker (checkptr) whose innermost non-runtime frame is in pipelined.dev/signal.",
 )
 
